@@ -2,12 +2,13 @@ import MsqProofs.Lemmas.CacheLemmas
 /-!
 # C17 — schema lookups are minimal, consistently keyed and cache-transparent
 
-Theorems about the state-machine model of `CreateTableStatementGetter` (`MsqModel/Cache.lean`), for every schema
-provider `prov` and every parser `parse`.  The hypotheses that the proofs force are visible in the statements
-(`Good n`: the name has no `/` and no NUL; `Clean n`: `.sql` does not occur in it; `hnl`: the provider's texts
-contain no carriage return; no crash between `open` and `close`); each of them is matched by a witness theorem
-below that shows the property failing on the model without it, and the witnesses are replayed on the real class
-by `tools/harness/props/c17.py`.
+Theorems about the state-machine model of `CreateTableStatementGetter` (`MsqModel/Cache.lean`, the code as of /repo 4e42ffc),
+for every schema provider `prov` and every parser `parse`.  The one hypothesis the proofs force is visible in the statements:
+`Good n` — the table name has no `/` and no NUL (findings F-C17-4…7, witness theorems below, replayed on the real class by
+`tools/harness/props/c17.py`).  The hypotheses the first version of these theorems needed are gone with the repairs of
+F-C17-1 (truncated file trusted: the file is now written under a temporary name and renamed — `crash_dirOK` holds at EVERY crash
+point), F-C17-2/3 (`.sql` inside a name: only the suffix is removed now) and F-C17-8 (carriage return: no newline translation);
+their witnesses became the regression theorems `regress_*`.
 -/
 namespace C17
 open Cache
@@ -26,9 +27,10 @@ structure Inv (s : St σ) : Prop where
   mem : ∀ n st, mget s.mem n = some st → parse (prov n) = .ok st
   disk : s.useDisk = true → ∀ n, n ∈ s.listed → Good n = true ∧ fget s.files (n ++ ext) = some (prov n)
 
-/-- restart safety of a directory: every file is `<m>.sql` for a good clean name `m` and holds the provider's text -/
+/-- restart safety of a directory: every `*.sql` entry is `<m>.sql` for a good name `m` and holds the provider's text
+(other entries — temporary files of interrupted runs, foreign files — are never looked at) -/
 def DirOK (files : Files) : Prop :=
-  ∀ f t, fget files f = some t → ∃ m, Good m = true ∧ Clean m = true ∧ f = m ++ ext ∧ t = prov m
+  ∀ f t m, fget files f = some t → stripSql f = some m → Good m = true ∧ t = prov m
 
 theorem finish_expected (s : St σ) (n : Name) :
     (finish parse s n (prov n)).1 = expected prov parse n := by
@@ -75,13 +77,12 @@ theorem get_none_good (s : St σ) (n : Name) (hg : Good n = true) :
         if s.useDisk then
           if s.listed.contains n then
             match fget s.files (n ++ ext) with
-            | some t => finish parse s n (newlines t)
+            | some t => finish parse s n t
             | none => (.fail .fileNotFound, s)
-          else finish parse { s with calls := s.calls ++ [n], listed := n :: s.listed,
-                                     files := fset (fset s.files (n ++ ext) []) (n ++ ext) (prov n) } n (prov n)
+          else finish parse { s with calls := s.calls ++ [n], listed := n :: s.listed, files := saved s.files n (prov n) } n (prov n)
         else finish parse { s with calls := s.calls ++ [n] } n (prov n) := by
-  unfold Cache.get load openW
-  simp only [resolve_good _ _ hg, dies, Bool.false_eq_true, ↓reduceIte, putFile]
+  unfold Cache.get load openTmp
+  simp only [resolve_good _ _ hg, resolveTmp_good _ _ hg, dies, Bool.false_eq_true, ↓reduceIte, putFile, replaceFile, saved]
   cases mget s.mem n with
   | some st => rfl
   | none =>
@@ -92,22 +93,36 @@ theorem get_none_good (s : St σ) (n : Name) (hg : Good n = true) :
       · rfl
     · rfl
 
-theorem dirOK_fset (files : Files) (n : Name) (hD : DirOK prov files) (hg : Good n = true) (hc : Clean n = true) :
-    DirOK prov (fset (fset files (n ++ ext) []) (n ++ ext) (prov n)) := by
-  intro f t hft
-  by_cases hf : f = n ++ ext
-  · subst hf
-    rw [fget_fset_same] at hft
-    injection hft with hft
-    exact ⟨n, hg, hc, rfl, hft.symm⟩
-  · rw [fget_fset_other _ _ _ _ hf, fget_fset_other _ _ _ _ hf] at hft
-    exact hD f t hft
+theorem dirOK_fset_tmp (files : Files) (x : Name) (t : Text) (hD : DirOK prov files) : DirOK prov (fset files (x ++ tmpExt) t) := by
+  intro f u m hf hm
+  by_cases h : f = x ++ tmpExt
+  · subst h
+    rw [stripSql_tmp] at hm
+    cases hm
+  · rw [fget_fset_other _ _ _ _ h] at hf
+    exact hD f u m hf hm
 
-/-- **C17 (cache transparency, one request).**  In a consistent state, for a good name and a provider whose texts
-survive the text-mode read: `get_statement` returns what the provider's text parses to, keeps the state consistent,
-asks the provider not at all when the name is cached and exactly once otherwise, and touches nothing else. -/
-theorem get_spec (hnl : ∀ n, newlines (prov n) = prov n) (s : St σ) (n : Name)
-    (hI : Inv prov parse s) (hg : Good n = true) :
+theorem dirOK_saved (files : Files) (n : Name) (hD : DirOK prov files) (hg : Good n = true) : DirOK prov (saved files n (prov n)) := by
+  intro f u m hf hm
+  by_cases h1 : f = n ++ ext
+  · subst h1
+    rw [fget_saved_final] at hf
+    injection hf with hf
+    rw [stripSql_ext] at hm
+    injection hm with hm
+    subst hm
+    exact ⟨hg, hf.symm⟩
+  · by_cases h2 : f = n ++ ext ++ tmpExt
+    · subst h2
+      rw [fget_saved_tmp] at hf
+      cases hf
+    · rw [fget_saved_other _ _ _ _ h1 h2] at hf
+      exact hD f u m hf hm
+
+/-- **C17 (cache transparency, one request).**  In a consistent state, for a good name: `get_statement` returns what the
+provider's text parses to, keeps the state consistent, asks the provider not at all when the name is cached and exactly once
+otherwise, and touches nothing else. -/
+theorem get_spec (s : St σ) (n : Name) (hI : Inv prov parse s) (hg : Good n = true) :
     (Cache.get prov parse none s n).1 = expected prov parse n
       ∧ Inv prov parse (Cache.get prov parse none s n).2
       ∧ (Cache.get prov parse none s n).2.calls = (if cached s n then s.calls else s.calls ++ [n])
@@ -135,14 +150,14 @@ theorem get_spec (hnl : ∀ n, newlines (prov n) = prov n) (s : St σ) (n : Name
         have hmem : n ∈ listed := by simpa using hl
         obtain ⟨_, hfile⟩ := hI.disk rfl n hmem
         simp only at hfile
-        simp only [↓reduceIte, hfile, hnl, Option.isSome_none, Bool.false_or, Bool.and_self]
+        simp only [↓reduceIte, hfile, Option.isSome_none, Bool.false_or, Bool.and_self]
         have hfr := finish_frame parse ({ useDisk := true, mem := mem, listed := listed, files := files, parent := parent,
                                            calls := calls } : St σ) n (prov n)
         exact ⟨finish_expected prov parse _ n, finish_inv prov parse _ n hI hm, hfr.1, hfr.2.1, hfr.2.2.2.1⟩
       | false =>
         simp only [Bool.false_eq_true, ↓reduceIte, Option.isSome_none, Bool.false_or, Bool.and_false]
         have hfr := finish_frame parse
-          ({ useDisk := true, mem := mem, listed := n :: listed, files := fset (fset files (n ++ ext) []) (n ++ ext) (prov n),
+          ({ useDisk := true, mem := mem, listed := n :: listed, files := saved files n (prov n),
              parent := parent, calls := calls ++ [n] } : St σ) n (prov n)
         refine ⟨finish_expected prov parse _ n, ?_, hfr.1, hfr.2.1, hfr.2.2.2.1⟩
         apply finish_inv prov parse _ n _ hm
@@ -150,7 +165,7 @@ theorem get_spec (hnl : ∀ n, newlines (prov n) = prov n) (s : St σ) (n : Name
         intro _ m hmm
         rcases List.mem_cons.1 hmm with h | h
         · subst h
-          exact ⟨hg, fget_fset_same _ _ _⟩
+          exact ⟨hg, fget_saved_final _ _ _⟩
         · obtain ⟨g1, g2⟩ := hI.disk rfl m h
           refine ⟨g1, ?_⟩
           have hne : m ++ ext ≠ n ++ ext := by
@@ -160,12 +175,12 @@ theorem get_spec (hnl : ∀ n, newlines (prov n) = prov n) (s : St σ) (n : Name
             have : listed.contains m = true := by simpa using h
             rw [this] at hl
             cases hl
-          show fget (fset (fset files (n ++ ext) []) (n ++ ext) (prov n)) (m ++ ext) = some (prov m)
-          rw [fget_fset_other _ _ _ _ hne, fget_fset_other _ _ _ _ hne]
+          show fget (saved files n (prov n)) (m ++ ext) = some (prov m)
+          rw [fget_saved_other _ _ _ _ hne (Ne.symm (tmp_ne_final n m))]
           exact g2
 
-/-- the directory stays restart-safe when a good clean name is requested -/
-theorem get_dirOK (s : St σ) (n : Name) (hD : DirOK prov s.files) (hg : Good n = true) (hc : Clean n = true) :
+/-- the directory stays restart-safe when a good name is requested -/
+theorem get_dirOK (s : St σ) (n : Name) (hD : DirOK prov s.files) (hg : Good n = true) :
     DirOK prov (Cache.get prov parse none s n).2.files := by
   rw [get_none_good prov parse s n hg]
   obtain ⟨useDisk, mem, listed, files, parent, calls⟩ := s
@@ -182,12 +197,12 @@ theorem get_dirOK (s : St σ) (n : Name) (hD : DirOK prov s.files) (hg : Good n 
           rw [(finish_frame parse _ n _).2.2.1]
           exact hD
       · rw [(finish_frame parse _ n _).2.2.1]
-        exact dirOK_fset prov files n hD hg hc
+        exact dirOK_saved prov files n hD hg
     · rw [(finish_frame parse _ n _).2.2.1]
       exact hD
 
-/-- **C17 (re-instantiation).**  A new process over a restart-safe directory starts in a consistent state: every
-derived name is the name the file was saved under and the file holds the provider's text. -/
+/-- **C17 (re-instantiation).**  A new process over a restart-safe directory starts in a consistent state: every listed name is
+the name a `*.sql` file was saved under and the file holds the provider's text. -/
 theorem init_inv (useDisk : Bool) (files parent : Files) (calls : List Name) (hD : DirOK prov files) :
     Inv prov parse (init (σ := σ) useDisk files parent calls) := by
   refine ⟨?_, ?_⟩
@@ -195,54 +210,41 @@ theorem init_inv (useDisk : Bool) (files parent : Files) (calls : List Name) (hD
     simp [init, mget] at h
   · intro hd n hn
     have hd' : useDisk = true := hd
-    simp only [init, hd', ↓reduceIte, List.mem_map] at hn
-    obtain ⟨⟨f, t⟩, hmem, hder⟩ := hn
+    simp only [init, hd', ↓reduceIte, List.mem_filterMap] at hn
+    obtain ⟨⟨f, t⟩, hmem, hstrip⟩ := hn
     obtain ⟨t', ht'⟩ := fget_of_mem files f t hmem
-    obtain ⟨m, hg, hc, hf, hcont⟩ := hD f t' ht'
-    have : n = m := by
-      rw [← hder]
-      show derive f = m
-      rw [hf, derive_clean m hc]
-    subst this
+    obtain ⟨hg, hcont⟩ := hD f t' n ht' hstrip
     refine ⟨hg, ?_⟩
     show fget files (n ++ ext) = some (prov n)
-    rw [← hf, ht', hcont]
+    rw [← stripSql_some f n hstrip, ht', hcont]
 
-/-- the operations of a crash-free history over good clean names -/
+/-- the operations of a crash-free history over good names -/
 def GoodOp : Op → Bool
   | .init _ => true
-  | .get n => Good n && Clean n
+  | .get n => Good n
   | .crash _ _ => false
 
-theorem step_inv (hnl : ∀ n, newlines (prov n) = prov n) (s : St σ) (o : Op) (ho : GoodOp o = true)
-    (hI : Inv prov parse s) (hD : DirOK prov s.files) :
+theorem step_inv (s : St σ) (o : Op) (ho : GoodOp o = true) (hI : Inv prov parse s) (hD : DirOK prov s.files) :
     Inv prov parse (step prov parse s o) ∧ DirOK prov (step prov parse s o).files := by
   cases o with
   | init b => exact ⟨init_inv prov parse b _ _ _ hD, hD⟩
-  | get n =>
-    have hg : Good n = true := by
-      simp only [GoodOp] at ho
-      cases h : Good n <;> simp_all
-    have hc : Clean n = true := by
-      simp only [GoodOp] at ho
-      cases h : Clean n <;> simp_all
-    exact ⟨(get_spec prov parse hnl s n hI hg).2.1, get_dirOK prov parse s n hD hg hc⟩
+  | get n => exact ⟨(get_spec prov parse s n hI ho).2.1, get_dirOK prov parse s n hD ho⟩
   | crash n c => simp [GoodOp] at ho
 
-/-- **C17 (histories).**  After ANY crash-free history of re-instantiations (with or without a directory) and
-requests for good clean names, started in any consistent state, the state is consistent and the directory is
-restart-safe — in particular after `init` in a later process. -/
-theorem history_inv (hnl : ∀ n, newlines (prov n) = prov n) (ops : List Op) (hops : ∀ o ∈ ops, GoodOp o = true)
+/-- **C17 (histories).**  After ANY crash-free history of re-instantiations (with or without a directory) and requests for good
+names, started in any consistent state, the state is consistent and the directory is restart-safe — in particular after `init` in
+a later process. -/
+theorem history_inv (ops : List Op) (hops : ∀ o ∈ ops, GoodOp o = true)
     (s : St σ) (hI : Inv prov parse s) (hD : DirOK prov s.files) :
     Inv prov parse (run prov parse s ops) ∧ DirOK prov (run prov parse s ops).files := by
   induction ops generalizing s with
   | nil => exact ⟨hI, hD⟩
   | cons o r ih =>
-    obtain ⟨h1, h2⟩ := step_inv prov parse hnl s o (hops o (by simp)) hI hD
+    obtain ⟨h1, h2⟩ := step_inv prov parse s o (hops o (by simp)) hI hD
     exact ih (fun o' ho' => hops o' (by simp [ho'])) _ h1 h2
 
 theorem fresh_ok (b : Bool) : Inv prov parse (fresh (σ := σ) b) ∧ DirOK prov (fresh (σ := σ) b).files := by
-  refine ⟨init_inv prov parse b [] [] [] ?_, ?_⟩ <;> intro f t h <;> simp [fresh, init, fget] at h
+  refine ⟨init_inv prov parse b [] [] [] ?_, ?_⟩ <;> intro f t m h <;> simp [fresh, init, fget] at h
 
 /-- what the requests of a history must answer: each one what the provider's text parses to, whatever came before -/
 def specResults : List Op → List (Res σ)
@@ -251,32 +253,28 @@ def specResults : List Op → List (Res σ)
   | .get n :: r => expected prov parse n :: specResults r
   | .crash n _ :: r => expected prov parse n :: specResults r
 
-theorem results_spec_from (hnl : ∀ n, newlines (prov n) = prov n) (ops : List Op) (hops : ∀ o ∈ ops, GoodOp o = true)
+theorem results_spec_from (ops : List Op) (hops : ∀ o ∈ ops, GoodOp o = true)
     (s : St σ) (hI : Inv prov parse s) (hD : DirOK prov s.files) :
     results prov parse s ops = specResults prov parse ops := by
   induction ops generalizing s with
   | nil => rfl
   | cons o r ih =>
     have ho := hops o (by simp)
-    obtain ⟨h1, h2⟩ := step_inv prov parse hnl s o ho hI hD
+    obtain ⟨h1, h2⟩ := step_inv prov parse s o ho hI hD
     have hr := ih (fun o' ho' => hops o' (by simp [ho'])) _ h1 h2
     cases o with
     | init b => simpa [results, specResults] using hr
     | get n =>
-      have hg : Good n = true := by
-        simp only [GoodOp] at ho
-        cases h : Good n <;> simp_all
       simp only [results, specResults]
-      rw [(get_spec prov parse hnl s n hI hg).1, hr]
+      rw [(get_spec prov parse s n hI ho).1, hr]
     | crash n c => simp [GoodOp] at ho
 
-/-- **C17 (cache transparency, histories).**  In every crash-free history over good clean names, started by a first
-process over an empty directory, every request answers what the provider's text parses to — whether it is served
-from memory, from the directory, or freshly fetched, in this or an earlier process.  Requesting twice, or after
-other requests, gives the same answer. -/
-theorem results_spec (hnl : ∀ n, newlines (prov n) = prov n) (b : Bool) (ops : List Op) (hops : ∀ o ∈ ops, GoodOp o = true) :
+/-- **C17 (cache transparency, histories).**  In every crash-free history over good names, started by a first process over an
+empty directory, every request answers what the provider's text parses to — whether it is served from memory, from the directory,
+or freshly fetched, in this or an earlier process.  Requesting twice, or after other requests, gives the same answer. -/
+theorem results_spec (b : Bool) (ops : List Op) (hops : ∀ o ∈ ops, GoodOp o = true) :
     results prov parse (fresh b) ops = specResults prov parse ops :=
-  results_spec_from prov parse hnl ops hops _ (fresh_ok prov parse b).1 (fresh_ok prov parse b).2
+  results_spec_from prov parse ops hops _ (fresh_ok prov parse b).1 (fresh_ok prov parse b).2
 
 theorem cached_iff_warm (s : St σ) (n : Name) : cached s n = s.abs.warm.contains n := by
   unfold cached St.abs
@@ -290,15 +288,15 @@ theorem finish_ok (s : St σ) (n : Name) (sql : Text) (st : σ) (hp : parse sql 
   unfold finish
   rw [hp]
 
-/-- **C17 (refinement of the abstract cache).**  When the provider's text parses, one concrete request simulates one
-request of `AbsCache`: same answer, same provider call log, same set of warm names. -/
-theorem get_refines (hnl : ∀ n, newlines (prov n) = prov n) (s : St σ) (n : Name) (st : σ)
+/-- **C17 (refinement of the abstract cache).**  When the provider's text parses, one concrete request simulates one request of
+`AbsCache`: same answer, same provider call log, same set of warm names. -/
+theorem get_refines (s : St σ) (n : Name) (st : σ)
     (hI : Inv prov parse s) (hg : Good n = true) (hp : parse (prov n) = .ok st) :
     (Cache.get prov parse none s n).1 = .ok st
       ∧ (Abs.get prov parse s.abs n).1 = .ok st
       ∧ (Cache.get prov parse none s n).2.abs.calls = (Abs.get prov parse s.abs n).2.calls
       ∧ ∀ m, m ∈ (Cache.get prov parse none s n).2.abs.warm ↔ m ∈ (Abs.get prov parse s.abs n).2.warm := by
-  obtain ⟨h1, _, h3, _, _⟩ := get_spec prov parse hnl s n hI hg
+  obtain ⟨h1, _, h3, _, _⟩ := get_spec prov parse s n hI hg
   have hres : (Cache.get prov parse none s n).1 = .ok st := by
     rw [h1]
     simp [expected, hp]
@@ -329,7 +327,7 @@ theorem get_refines (hnl : ∀ n, newlines (prov n) = prov n) (s : St σ) (n : N
           have hmem : n ∈ listed := by simpa using hl
           obtain ⟨_, hfile⟩ := hI.disk rfl n hmem
           simp only at hfile
-          simp only [↓reduceIte, hfile, hnl, finish_ok parse _ n _ st hp, Option.isSome_none, Bool.false_or, Bool.and_self]
+          simp only [↓reduceIte, hfile, finish_ok parse _ n _ st hp, Option.isSome_none, Bool.false_or, Bool.and_self]
           simp only [St.abs, ↓reduceIte, List.map_append, List.map_cons, List.map_nil, List.mem_append, List.mem_cons,
             List.not_mem_nil, or_false]
           constructor
@@ -356,26 +354,24 @@ theorem get_refines (hnl : ∀ n, newlines (prov n) = prov n) (s : St σ) (n : N
             · exact Or.inl (Or.inl h)
             · exact Or.inr (Or.inr h)
 
-/-- **C17 (crash points that are safe), `…_partial`.**  A process death during a request leaves a restart-safe
-directory at every point EXCEPT between the truncating `open` and the end of `close` (step 3, and step 4 with an
-incomplete flush) — the excluded points are exactly `witness_truncated_file_trusted` / `witness_partial_file_trusted`. -/
-theorem crash_dirOK_partial (s : St σ) (n : Name) (c : Crash) (hD : DirOK prov s.files) (hg : Good n = true) (hc : Clean n = true)
-    (h3 : c.steps ≠ 3) (h4 : c.steps = 4 → (prov n).length ≤ c.flushed) :
+/-- **C17 (crash safety).**  A process death at ANY point of a request for a good name leaves a restart-safe directory: the text is
+written under a temporary name that no later process looks at, and appears under its final name only complete
+(`os.replace`).  So the next process starts in a consistent state (`init_inv`) and answers every request correctly
+(`results_spec_from`).  (Before /repo 4e42ffc this held only outside the window between the truncating `open` and `close`: F-C17-1.) -/
+theorem crash_dirOK (s : St σ) (n : Name) (c : Crash) (hD : DirOK prov s.files) (hg : Good n = true) :
     DirOK prov (Cache.get prov parse (some c) s n).2.files := by
-  unfold Cache.get load openW
-  simp only [resolve_good _ _ hg, putFile]
+  unfold Cache.get load openTmp
+  simp only [resolve_good _ _ hg, resolveTmp_good _ _ hg, putFile, replaceFile]
   obtain ⟨useDisk, mem, listed, files, parent, calls⟩ := s
-  have key : ∀ t, t = prov n → DirOK prov (fset (fset files (n ++ ext) []) (n ++ ext) t) := by
-    intro t ht
-    rw [ht]
-    exact dirOK_fset prov files n hD hg hc
-  have h3' : dies (some c) 3 = false := by
-    simp only [dies]
-    exact Bool.eq_false_iff.2 (fun h => h3 (by simpa using h))
+  have k1 : ∀ t, DirOK prov (fset files (n ++ ext ++ tmpExt) t) := fun t => dirOK_fset_tmp prov files (n ++ ext) t hD
+  have k2 : ∀ t u, DirOK prov (fset (fset files (n ++ ext ++ tmpExt) t) (n ++ ext ++ tmpExt) u) :=
+    fun t u => dirOK_fset_tmp prov _ (n ++ ext) u (k1 t)
+  have k3 : DirOK prov (fset (fdel (fset (fset files (n ++ ext ++ tmpExt) []) (n ++ ext ++ tmpExt) (prov n)) (n ++ ext ++ tmpExt)) (n ++ ext) (prov n)) :=
+    dirOK_saved prov files n hD hg
   cases mget mem n with
   | some st => exact hD
   | none =>
-    simp only [h3', Bool.false_eq_true, ↓reduceIte]
+    simp only
     split
     · split
       · cases fget files (n ++ ext) with
@@ -387,95 +383,110 @@ theorem crash_dirOK_partial (s : St σ) (n : Name) (c : Crash) (hD : DirOK prov 
       · split
         · exact hD
         · split
-          · exact hD
+          · exact k1 _
           · split
-            · rename_i h4'
-              have : c.steps = 4 := by simpa [dies] using h4'
-              exact key _ (List.take_of_length_le (h4 this))
+            · exact k2 _ _
             · split
-              · exact key _ rfl
-              · rw [(finish_frame parse _ n _).2.2.1]
-                exact key _ rfl
+              · exact k2 _ _
+              · split
+                · exact k3
+                · rw [(finish_frame parse _ n _).2.2.1]
+                  exact k3
     · split
       · exact hD
       · rw [(finish_frame parse _ n _).2.2.1]
         exact hD
 
+/-- … and so every history, WITH process deaths at arbitrary points, keeps the directory restart-safe -/
+def GoodOpC : Op → Bool
+  | .init _ => true
+  | .get n => Good n
+  | .crash n _ => Good n
+
+theorem history_dirOK_with_crashes (ops : List Op) (hops : ∀ o ∈ ops, GoodOpC o = true) (s : St σ) (hD : DirOK prov s.files) :
+    DirOK prov (run prov parse s ops).files := by
+  induction ops generalizing s with
+  | nil => exact hD
+  | cons o r ih =>
+    apply ih (fun o' ho' => hops o' (by simp [ho']))
+    have ho := hops o (by simp)
+    cases o with
+    | init b => exact hD
+    | get n => exact get_dirOK prov parse s n hD ho
+    | crash n c => exact crash_dirOK prov parse s n c hD ho
+
 end
 
-/-! ## non-vacuity and witnesses (kernel-evaluated on a small instance of the model)
+/-! ## non-vacuity, regression examples and witnesses (kernel-evaluated on a small instance of the model)
 
 `tprov n = "DDL:" ++ n`, `tparse` accepts every non-empty text and returns it. -/
 
 def tprov (n : Name) : Text := "DDL:".toList ++ n
 def tparse (t : Text) : Except Err Text := if t.isEmpty then .error .parse else .ok t
 
-/-- non-vacuity of `results_spec`: a history with a memory hit, a disk hit in a second process, a process without
-directory and names with schema, dots and back-quotes satisfies the hypotheses … -/
+/-- non-vacuity of `results_spec`: a history with a memory hit, a disk hit in a second process, a process without directory and
+names with schema, dots, back-quotes and `.sql` inside satisfies the hypotheses … -/
 example : (([.get "s.t".toList, .get "s.t".toList, .init true, .get "s.t".toList, .get "`a b`".toList, .init false,
-    .get "s.t".toList, .init true, .get "x.sq".toList] : List Op).all GoodOp) = true := by decide +kernel
+    .get "s.t".toList, .init true, .get "a.sql.b".toList] : List Op).all GoodOp) = true := by decide +kernel
 /-- … and the provider is asked exactly once per name per cold state in it -/
 example : (run tprov tparse (fresh true) [.get "s.t".toList, .get "s.t".toList, .init true, .get "s.t".toList, .get "`a b`".toList,
-    .init false, .get "s.t".toList, .init true, .get "x.sq".toList]).calls
-    = ["s.t".toList, "`a b`".toList, "s.t".toList, "x.sq".toList] := by decide +kernel
+    .init false, .get "s.t".toList, .init true, .get "a.sql.b".toList]).calls
+    = ["s.t".toList, "`a b`".toList, "s.t".toList, "a.sql.b".toList] := by decide +kernel
 
-/-- F-C17-1: a file truncated by `open(…, "w")` and never written (process death at step 3) is trusted by the next
-process: the request fails in the parser on the empty text and the provider is NOT asked again. -/
-theorem witness_truncated_file_trusted :
-    results tprov tparse (fresh true) [.crash "b".toList ⟨3, 0⟩, .init true, .get "b".toList, .get "b".toList]
-        = [.fail .crashed, .fail (.parse .parse), .fail (.parse .parse)]
-      ∧ (run tprov tparse (fresh true) [.crash "b".toList ⟨3, 0⟩, .init true, .get "b".toList, .get "b".toList]).calls = ["b".toList] := by
+/-- regression for F-C17-1 (fixed in /repo 4e42ffc): a process death right after the temporary file was created (step 2), in the
+middle of `write` (step 3) or after `close` (step 4) leaves nothing a later process trusts — the table is fetched again and
+answered correctly -/
+theorem regress_interrupted_save :
+    results tprov tparse (fresh true) [.crash "b".toList ⟨2, 0⟩, .init true, .get "b".toList, .crash "c".toList ⟨3, 2⟩, .init true, .get "c".toList,
+        .crash "d".toList ⟨4, 0⟩, .init true, .get "d".toList]
+      = [.fail .crashed, .ok (tprov "b".toList), .fail .crashed, .ok (tprov "c".toList), .fail .crashed, .ok (tprov "d".toList)] := by
   decide +kernel
 
-/-- F-C17-1 (partial flush): a prefix of the provider's text is served as if it were the provider's text -/
-theorem witness_partial_file_trusted :
-    results tprov tparse (fresh true) [.crash "b".toList ⟨4, 2⟩, .init true, .get "b".toList]
-      = [.fail .crashed, .ok "DD".toList] := by decide +kernel
+/-- … and a death after `os.replace` (step 5) leaves the complete file, which the next process serves without asking again -/
+theorem regress_completed_save :
+    results tprov tparse (fresh true) [.crash "b".toList ⟨5, 0⟩, .init true, .get "b".toList] = [.fail .crashed, .ok (tprov "b".toList)]
+      ∧ (run tprov tparse (fresh true) [.crash "b".toList ⟨5, 0⟩, .init true, .get "b".toList]).calls = ["b".toList] := by decide +kernel
 
-/-- F-C17-2: a name containing `.sql` is saved as `a.sql.b.sql`, which the next process lists as `a.b`: the table that
-IS on disk is fetched again … -/
-theorem witness_dotsql_fetched_again :
-    (run tprov tparse (fresh true) [.get "a.sql.b".toList, .init true, .get "a.sql.b".toList]).calls
-      = ["a.sql.b".toList, "a.sql.b".toList] := by decide +kernel
+/-- regression for F-C17-2/3 (fixed in /repo 646d98b): a name containing `.sql` is found again by the next process (asked once),
+and the name `a.b` is not believed to be on disk (the provider is asked for it) -/
+theorem regress_dotsql :
+    (run tprov tparse (fresh true) [.get "a.sql.b".toList, .init true, .get "a.sql.b".toList]).calls = ["a.sql.b".toList]
+      ∧ results tprov tparse (fresh true) [.get "a.sql.b".toList, .init true, .get "a.b".toList]
+          = [.ok (tprov "a.sql.b".toList), .ok (tprov "a.b".toList)] := by decide +kernel
 
-/-- … and the table `a.b` that is NOT on disk is believed to be: `load_from_disk` raises `FileNotFoundError` and the
-provider is never asked for it -/
-theorem witness_dotsql_phantom :
-    results tprov tparse (fresh true) [.get "a.sql.b".toList, .init true, .get "a.b".toList]
-        = [.ok (tprov "a.sql.b".toList), .fail .fileNotFound]
-      ∧ (run tprov tparse (fresh true) [.get "a.sql.b".toList, .init true, .get "a.b".toList]).calls = ["a.sql.b".toList] := by
-  decide +kernel
+/-- regression for F-C17-8 (fixed in /repo 8f5dd66): a carriage return in the provider's text comes back from the directory unchanged -/
+theorem regress_carriage_return :
+    results (fun _ => "x\ry".toList) tparse (fresh true) [.get "a".toList, .init true, .get "a".toList]
+      = [.ok "x\ry".toList, .ok "x\ry".toList] := by decide +kernel
 
-/-- F-C17-3: a name with `/` — the provider is asked, `open` raises `FileNotFoundError`, the name stays in
-`_disk_cache`, so the second request fails in `load_from_disk` without asking -/
+/-- regression for F-C17-9 (fixed in /repo be71fec): the INSERT target is requested under the key of source tables; the old key was
+the printed back-quoted form -/
+theorem regress_insert_target_key :
+    (insertKey (some "s") "t" == sourceKey (some "s") "t") = true ∧ (insertKey none "t" == sourceKey none "t") = true
+      ∧ (insertKeyOld (some "s") "t" == sourceKey (some "s") "t") = false := by decide +kernel
+
+/-- F-C17-4: a name with `/` — the provider is asked, `open` raises `FileNotFoundError`; every request asks and fails again -/
 theorem witness_slash :
     results tprov tparse (fresh true) [.get "s/t".toList, .get "s/t".toList] = [.fail .fileNotFound, .fail .fileNotFound]
-      ∧ (run tprov tparse (fresh true) [.get "s/t".toList, .get "s/t".toList]).calls = ["s/t".toList] := by decide +kernel
+      ∧ (run tprov tparse (fresh true) [.get "s/t".toList, .get "s/t".toList]).calls = ["s/t".toList, "s/t".toList] := by decide +kernel
 
-/-- F-C17-3 (aliasing): `./a` is saved as `a.sql`; the next process serves it as table `a` without asking the provider -/
+/-- F-C17-4 (aliasing): `./a` is saved as `a.sql`; the next process serves it as table `a` without asking the provider -/
 theorem witness_dot_slash_alias :
     results tprov tparse (fresh true) [.get "./a".toList, .init true, .get "a".toList]
         = [.ok (tprov "./a".toList), .ok (tprov "./a".toList)]
       ∧ (run tprov tparse (fresh true) [.get "./a".toList, .init true, .get "a".toList]).calls = ["./a".toList] := by decide +kernel
 
-/-- F-C17-3 (escape): `../x` is written above the cache directory -/
+/-- F-C17-5: … and the table `./a` itself is not found on disk by the next process (it is listed as `a`): asked again -/
+theorem witness_slash_fetched_again :
+    (run tprov tparse (fresh true) [.get "./a".toList, .init true, .get "./a".toList]).calls = ["./a".toList, "./a".toList] := by decide +kernel
+
+/-- F-C17-6 (escape): `../x` is written above the cache directory -/
 theorem witness_escape :
     (run tprov tparse (fresh true) [.get "../x".toList]).parent = [("x.sql".toList, tprov "../x".toList)] := by decide +kernel
 
-/-- F-C17-3 (NUL): `ValueError` from `open`, after the provider was asked -/
+/-- F-C17-7 (NUL): `ValueError` from `open`, after the provider was asked -/
 theorem witness_nul :
-    results tprov tparse (fresh true) [.get ['a', '\x00']] = [.fail .valueError] := by decide +kernel
-
-/-- F-C17-4: a carriage return in the provider's text comes back as a line feed from the directory (text-mode read):
-the same request answers differently in the next process -/
-theorem witness_carriage_return :
-    results (fun _ => "x\ry".toList) tparse (fresh true) [.get "a".toList, .init true, .get "a".toList]
-      = [.ok "x\ry".toList, .ok "x\ny".toList] := by decide +kernel
-
-/-- F-C17-5: the INSERT target is requested under its printed, back-quoted form, source tables under the bare dotted
-form: one table, two keys -/
-theorem witness_insert_target_key :
-    (insertKey (some "s") "t" == sourceKey (some "s") "t") = false
-      ∧ (insertKey none "t" == sourceKey none "t") = false := by decide +kernel
+    results tprov tparse (fresh true) [.get ['a', '\x00']] = [.fail .valueError]
+      ∧ (run tprov tparse (fresh true) [.get ['a', '\x00']]).calls = [['a', '\x00']] := by decide +kernel
 
 end C17
